@@ -46,6 +46,12 @@ RULES.update({
     "C07": _CHAIN + "Oracle after every delivery: node best = model best (longer valid branch adopted; shorter/equal/invalid never displaces); on a reorg the txs handed back to the pool are exactly txs(old branch) - txs(new branch); at the end the node accepts one more block on its own tip and its full state (all accounts) equals that of a reference node that only ever saw the winning branch.",
 })
 
+_DPOS = ("one case = a seeded run of the DPOS world: 1/3/4 real DPoS producer nodes + 0-2 observers in one process (real chain service, dpos.Status/libStatus/bp.Cluster/slot, block factory generateBlock, own simulated disk and own skewed clock each), block interval 1 or 2 s; steps: slot/tick (world clock moves, every producer acts as a correct producer would at ITS local time through the production getBpInfo decision), deliver/drop/duplicate of individual in-flight blocks (reordering and delay follow), flush, partition/heal, clock skew up to +-3 slots, clean restart, sync (stand-in for the syncer: fetch a peer's main chain), transactions, a corrupting relay (one header field altered, signature kept; fields enumerated by reflection), and with 4 producers one Byzantine producer (equivocation = two siblings for one of its slots shown to different peers, out-of-turn incl. boundary milliseconds, future-dated, and a non-member signer). After the step list faults stop (heal, clocks right, stale traffic dropped) and 6 rounds are run. distinct = distinct (node, LIB, best-LIB distance, n) digests; non-trivial = at least one fault fired. ")
+RULES.update({
+    "C08": _DPOS + "Oracle after every step on every correct node: reported LIB height never decreases; the LIB block is on the node's main chain; every (height, block) that was ever at or below a reported LIB is still there; when the LIB advances, blocks of > 2/3 distinct producers exist at or above it on the main chain (independent recount); no two correct nodes hold irreversible blocks on conflicting branches (f < n/3); a clean restart restores the same LIB; after faults stop every node's LIB advances within 6 rounds and all nodes are on one best block.",
+    "C09": _DPOS + "Plus, before the run, the repo's slot-owner decision is compared with an independently written owner function on every millisecond around 2n+2 consecutive slot boundaries for a generated n in 1..100 (exactly one owner, the specified one). Oracle for every block that appears on a correct node's main chain: signature verifies over the full header with the header's key, signer is in the node's current producer set, its index owns the slot of the timestamp (independent function), and no two producers have accepted blocks in one slot; for every block a correct node keeps at arrival: slot(timestamp) < slot(local clock) + 2; a block whose header field was altered in flight (signature kept) is never kept.",
+})
+
 REALSTUB = {
     "*": {"real": ["code under test as named in DESIGN.md section 5"], "stub": ["LuaJIT VM (contract/zz_vm_stub.go)", "disk (simdisk implements aergo-lib db.DB)"]},
     "C10": {"real": ["pkg/trie (Update, Commit, StageUpdates, Get, LoadCache)", "internal/common.Hasher"],
@@ -88,6 +94,12 @@ MAN = {
     "C07": {"text": "seeded search over competing branches (all fork depths/length differences in bounds, shared and conflicting txs, invalid block at any position of the longer branch, any interleaving incl. children first); node best vs a model of the specified fork choice after every delivery, exact hand-back set on reorg, final full-state equality with a reference node that only saw the winning branch, and the node must still extend its own tip.",
             "ref": "5 C07", "note": "trusted: the fork-choice model, reference node wiring, VM stub; LIB-limited forks are covered by the DPOS world (C08), not here",
             "technique": "deterministic simulation: seeded delivery interleavings of competing branches against a reference fork-choice model and a reference node"},
+    "C08": {"text": "seeded search over interleavings of production, delivery, loss, duplication, partition, clock skew, restarts and one equivocating/out-of-turn producer among 1/3/4 real DPoS nodes; LIB monotone / on-chain / never undone / quorum-backed / agreeing across nodes / restored by restart, and bounded finality progress + convergence once faults stop. Found and fixed one genuine defect (LIB moving backwards / onto an abandoned branch after a reorganization).",
+            "ref": "5 C08", "note": "trusted: harness network/clock, the sync stand-in (real syncer is checked in C17), VM stub; n <= 4, <= 160 steps per run; restarts are clean (crash points are C06)",
+            "technique": "deterministic simulation: seeded schedules of a multi-node DPoS network with message, clock, partition, restart and Byzantine-producer faults; invariants after every event, bounded liveness after faults stop"},
+    "C09": {"text": "seeded search with Byzantine producers (out-of-turn at slot-boundary milliseconds, future-dated, non-member, equivocation), skewed clocks and a relay corrupting every header field in turn; every block a correct node connects is re-judged by an independent slot-owner function / signature / membership check, plus a millisecond-exact scan of the slot-owner decision for n in 1..100.",
+            "ref": "5 C09", "note": "trusted: the independent owner function (3 lines, from the statement), harness network/clock; 'accepted' = on a correct node's main chain (side-branch blocks are judged when a reorganization connects them); producer set = genesis set (election needs > 300 blocks)",
+            "technique": "deterministic simulation: seeded Byzantine-producer and corrupting-relay faults under clock skew, per-accepted-block oracle written from the specification"},
     "C10": {"text": "seeded search over histories of update/delete batches, restarts, historical-root reads and crashes inside the commit on the real pkg/trie over a simulated disk; every step is compared with a map model and the root with a freshly built trie (history independence). Sampling, not proof; found and fixed one genuine defect.",
             "ref": "5 C10", "note": "trusted: the map model, simdisk's write-unit semantics (tx atomic, bulk chunked), sha256",
             "technique": "deterministic simulation: seeded operation histories + crash/restart fault injection against a reference map model, ddmin-minimised replay"},
